@@ -434,3 +434,103 @@ def feature_boxes(draw, flat_coords, u, allow_degenerate=False):
 
 
 subtypes = st.sampled_from(['float64', 'float64', 'float32', 'int64', 'int32', 'int16'])
+
+
+# ----------------------------------------------------------------------------- "any structure" elements (C11/C13/C14/C15/C16/C17)
+def _coord(subtype, nonfinite, wide):
+    base = st.integers(-4, 6)
+    opts = [base, base, base]
+    if wide:
+        lim = {'int16': 2 ** 15 - 1, 'int32': 2 ** 31 - 1, 'int64': 2 ** 50, 'float32': 2 ** 20, 'float64': 2 ** 50}[subtype]
+        opts.append(st.sampled_from([lim, -lim, lim - 1, 1 - lim]))
+        opts.append(st.integers(-lim, lim))
+        if subtype.startswith('float'):
+            opts.append(st.sampled_from([0.5, -0.25, 1.75, 1e-3 if subtype == 'float64' else 0.125, 3.0e7 if subtype == 'float64' else 1024.5]))
+    if nonfinite and subtype.startswith('float'):
+        opts.append(st.sampled_from([float('nan'), float('inf'), float('-inf')]))
+    return st.one_of(*opts)
+
+
+@st.composite
+def any_flat(draw, subtype, nonfinite=False, wide=False, max_vertices=6, min_vertices=0, exact_f32=True):
+    n = draw(st.integers(min_vertices, max_vertices))
+    c = _coord(subtype, nonfinite, wide)
+    out = []
+    for _ in range(n):
+        if out and draw(st.integers(0, 5)) == 0:
+            out.extend(out[-2:])            # repeated vertex
+        else:
+            out.extend([draw(c), draw(c)])
+    return out
+
+
+@st.composite
+def any_ring(draw, subtype, nonfinite=False, wide=False):
+    """ring with 0..6 vertices; rings with >=3 vertices are closed (the library stores closed rings)"""
+    k = draw(st.sampled_from([0, 1, 2, 2, 3, 3, 4, 4, 5, 6]))
+    c = _coord(subtype, nonfinite, wide)
+    pts = [(draw(c), draw(c)) for _ in range(k)]
+    if k >= 3 and not wide and draw(st.integers(0, 4)) == 0:
+        # collinear ring of zero area
+        a, b = pts[0], pts[1]
+        if all(isinstance(v, int) for v in a + b):
+            pts = [a] + [(a[0] + i * (b[0] - a[0]), a[1] + i * (b[1] - a[1])) for i in range(1, k)]
+    mode = draw(st.sampled_from(['closed', 'closed', 'closed', 'open2']))
+    if k == 0:
+        return []
+    if k == 1:
+        return list(pts[0]) if mode == 'open2' else list(pts[0]) * 2
+    if k == 2 and mode == 'open2':
+        return [v for p in pts for v in p]
+    return [v for p in pts + [pts[0]] for v in p]
+
+
+@st.composite
+def any_element(draw, kind, subtype, nonfinite=False, wide=False):
+    if kind == 'point':
+        c = _coord(subtype, nonfinite, wide)
+        if subtype.startswith('float') and draw(st.integers(0, 7)) == 0:
+            return [float('nan'), float('nan')]
+        return [draw(c), draw(c)]
+    if kind == 'multipoint':
+        return draw(any_flat(subtype, nonfinite, wide))
+    if kind == 'line':
+        return draw(any_flat(subtype, nonfinite, wide))
+    if kind == 'ring':
+        return draw(any_ring(subtype, nonfinite, wide))
+    if kind == 'multiline':
+        return [draw(any_flat(subtype, nonfinite, wide, max_vertices=4)) for _ in range(draw(st.integers(0, 3)))]
+    if kind == 'polygon':
+        return [draw(any_ring(subtype, nonfinite, wide)) for _ in range(draw(st.integers(0, 4)))]
+    if kind == 'multipolygon':
+        return [[draw(any_ring(subtype, nonfinite, wide)) for _ in range(draw(st.integers(0, 3)))]
+                for _ in range(draw(st.integers(0, 3)))]
+    raise ValueError(kind)
+
+
+@st.composite
+def any_array_case(draw, kinds=None, nonfinite=False, wide=False, max_len=8, subtype_st=None, leafless=True, missing=True):
+    from .model import KINDS, REBACKINGS
+    kind = draw(st.sampled_from(kinds or KINDS))
+    subtype = draw(subtype_st or subtypes)
+    n = draw(st.one_of(st.integers(0, 3), st.integers(0, max_len)))
+    els = []
+    for _ in range(n):
+        r = draw(st.integers(0, 9))
+        if r == 0 and missing:
+            els.append(None)
+        elif r == 1:
+            els.append(([float('nan'), float('nan')] if subtype.startswith('float') else (None if missing else [0, 0])) if kind == 'point' else [])
+        else:
+            e = draw(any_element(kind, subtype, nonfinite, wide))
+            els.append(e if leafless else no_leafless(e))
+    return {'kind': kind, 'subtype': subtype, 'elements': els, 'reback': draw(st.sampled_from(REBACKINGS))}
+
+
+@st.composite
+def partition_splits(draw, n, max_parts=5):
+    """ordered composition of n rows into k parts (parts may be empty): list of k part sizes"""
+    k = draw(st.integers(1, max_parts))
+    cuts = sorted(draw(st.lists(st.integers(0, n), min_size=k - 1, max_size=k - 1)))
+    edges = [0] + cuts + [n]
+    return [b - a for a, b in zip(edges[:-1], edges[1:])]
